@@ -460,6 +460,27 @@ func c19RoundF(o *Out, kind string, v *bv, repseed int64, force int) {
 		delete(obs["dec"].(map[string]interface{}), "val")
 	}
 	o.add(Case{Coq: fmt.Sprintf("CRound %s (Some %s) %s %d", v.coq(), cB(enc), d.coq(), d.Alloc), In: in, Obs: obs, Kind: kind})
+	// an encoding that has been returned belongs to the caller: encoding other values afterwards must not change it
+	if m, ok := gv.(bencode.Marshaler); ok {
+		var enc2 []byte
+		var err2 error
+		func() {
+			defer func() {
+				if r := recover(); r != nil {
+					err2 = fmt.Errorf("panic: %v", r)
+				}
+			}()
+			enc2, err2 = m.MarshalBencode()
+			_, _ = bencode.Dict{"zzzz": bencode.List{int64(1), "xxxxxxxxxxxxxxxxxxxxxxxx"}, "y": strings.Repeat("q", len(enc2)+8)}.MarshalBencode()
+			_, _ = bencode.List{strings.Repeat("r", len(enc2)+8)}.MarshalBencode()
+		}()
+		if err2 == nil {
+			d2 := c19Decode(enc2)
+			in2 := map[string]interface{}{"t": "round", "tree": v.js(), "rep": repseed, "force": force}
+			o.add(Case{Coq: fmt.Sprintf("CRound %s (Some %s) %s %d", v.coq(), cB(enc2), d2.coq(), d2.Alloc), In: in2,
+				Obs: map[string]interface{}{"retained": true, "enc_len": len(enc2), "same_as_marshal": bytes.Equal(enc, enc2)}, Kind: kind + "-retained"})
+		}
+	}
 }
 
 func c19Dec(o *Out, kind string, input []byte) {
